@@ -437,9 +437,9 @@ def pDyn : Params := { pA with dynamic := true, maxFails := 5 }
 
 /-- a handler with dynamic upstreams [0, 1]: two requests are inside backend 0 at once — two
     iterations hold key 0 (usage count 2), both count on Host object 0, whose in-flight count is 2 -/
-example : ((runSteps dinit [.load [0, 1] pDyn, .newReq true, .newReq true]).map fun d =>
+example : ((runSteps dinit [.load [0, 1] pDyn [], .newReq true, .newReq true]).map fun d =>
     (refs d.s 0, d.s.inflight 0, sendingCount d.s 0)) = some (2, 2, 2) := by decide
-example : ((runSteps dinit [.load [0, 1] pDyn, .newReq true, .newReq true]).map fun d =>
+example : ((runSteps dinit [.load [0, 1] pDyn [], .newReq true, .newReq true]).map fun d =>
     (d.s.cfgs.map (·.ups), d.s.nextHost)) = some ([[], [(0, 0), (1, 1)], [(0, 0), (1, 1)]], 2) := by decide
 
 /-- …and when the last iteration referring to an address returns, the pool lets the Host go. This is
@@ -451,7 +451,7 @@ example : ((runSteps dinit [.load [0, 1] pDyn, .newReq true, .newReq true]).map 
     calls "an upstream within one configuration" lives for one loop iteration here.
     (the documented reset of passive state for dynamic upstreams): the failure counted on object 0 stays
     with that orphan, the retry is provisioned fresh objects 2 and 3 -/
-example : ((runSteps dinit [.load [0, 1] pDyn, .newReq true, .answer 0 "rst"]).map fun d =>
+example : ((runSteps dinit [.load [0, 1] pDyn [], .newReq true, .answer 0 "rst"]).map fun d =>
     (poolObj d.s 0, d.s.fails 0, d.s.inflight 2, d.s.nextHost)) = some (some 2, 1, 1, 4) := by decide
 
 /-- **in_flight_iteration_holds_its_upstream** — dynamic upstreams: as long as a request is dealing
@@ -459,12 +459,14 @@ example : ((runSteps dinit [.load [0, 1] pDyn, .newReq true, .answer 0 "rst"]).m
     `reverseProxy` and the end of the iteration (countFailure, tryAgain) — the iteration still holds
     that upstream in the pool, and the Host is the pooled one: the in-flight count and the failures
     the selection of every other request consults for that address include this request.
+    (`q.holder = some c`: the iteration got its upstreams from the source; an iteration in which the
+    source failed has no holder and uses the handler's static upstreams, see `fallback`.)
     (The deferred `hosts.Delete` belongs to proxyLoopIteration, not to anything that returns
     earlier — the scope the seeded change C08-dynamic-upstream-host-deleted-early moved.) -/
 theorem in_flight_iteration_holds_its_upstream {s : State} (h : Reachable s) {r : Nat} {q : Req} {o : HostId}
-    (hq : s.reqs[r]? = some q) (hd : q.par.dynamic = true) (ho : q.pc.hostOf = some o) :
-    ∃ k, poolObj s k = some o ∧ 0 < refs s k := by
-  obtain ⟨c, cs, _, hcs, hnc, _, k, hu⟩ := iterInv_reachable h r q o hq hd ho
+    {c : CfgId} (hq : s.reqs[r]? = some q) (hd : q.par.dynamic = true) (ho : q.pc.hostOf = some o)
+    (hh : q.holder = some c) : ∃ k, poolObj s k = some o ∧ 0 < refs s k := by
+  obtain ⟨cs, hcs, hnc, _, k, hu⟩ := iterInv_reachable h r q o c hq hd ho hh
   have hm : cs ∈ s.cfgs := mem_of_get hcs
   have hp := poolInv_reachable h
   have hh := hp.ups_held cs hm hnc k o hu
@@ -480,6 +482,31 @@ example : ∃ s, Reachable s ∧ (s.reqs[0]?).map (fun q => (q.par.dynamic, q.pc
 /-- the holder of a running iteration cannot end under its request: the step is not enabled -/
 example : HoldsAfter [.newCfg pDyn, .newReq 0 true, .newIter 0, .store 1 7, .dispatch 0 0]
     (fun s => (step s (.cancel 1)).isNone = true ∧ (step s (.cancel 0)).isSome = true) := by decide
+
+/-- the error path of the dynamic source (reverseproxy.go:503-507): an iteration in which
+    `GetUpstreams` failed (no holder) can only be sent to one of the handler's own, static upstreams —
+    which the handler holds in the pool like any static configuration (`holders_share_host`);
+    nothing is provisioned and nothing will be released for that iteration -/
+theorem fallback_uses_static_upstreams {s s' : State} {r : Nat} {q : Req} {h : HostId}
+    (hq : s.reqs[r]? = some q) (hd : q.par.dynamic = true) (hh : q.holder = none)
+    (hs : step s (.dispatch r h) = some s') : ∃ cs : CfgSt, s.cfgs[q.cfg]? = some cs ∧ ∃ k, (k, h) ∈ cs.ups := by
+  simp only [step, stepDispatch, hq] at hs
+  split at hs
+  · split at hs
+    next hok =>
+      simp only [dynOk, hd, if_true, hh] at hok
+      split at hok
+      next cs hcs =>
+        simp only [List.any_eq_true, beq_iff_eq] at hok
+        obtain ⟨x, hx, hxo⟩ := hok
+        exact ⟨cs, hcs, x.1, by rw [← hxo]; exact hx⟩
+      · simp at hok
+    · simp at hs
+  · simp at hs
+
+/-- handler 0 has a dynamic source and static upstream key 8; the source fails for request 0 -/
+example : HoldsAfter [.newCfg pDyn, .store 0 8, .newReq 0 true, .fallback 0]
+    (fun s => (step s (.dispatch 0 0)).isSome = true ∧ (step s (.dispatch 0 5)).isNone = true) := by decide
 
 -- ---------------------------------------------------------------- the source premise
 
@@ -501,7 +528,7 @@ theorem sched_reachable {d d' : DState} {st : SStep} {ev : String} (h : Reachabl
     (hs : sstep d st = some (d', ev)) : Reachable (settle d'.s) :=
   settle_reachable (sstep_reachable h hs)
 
-example : (sstep dinit (.load [0, 1] pA)).isSome = true := by decide
+example : (sstep dinit (.load [0, 1] pA [])).isSome = true := by decide
 
 /-- the proxy loop of the schedule interpreter never runs out of fuel: the wire syntax limits
     `retries` to 8 and the interpreter passes `fuel0 = 12` (see `FuelLemmas.advance_never_runs_out_of_fuel`
@@ -511,7 +538,7 @@ theorem sched_never_runs_out_of_fuel (d : DState) (r : Nat) (q : Req) (hq : d.s.
     (hr : q.par.retries ≤ 8) : (advance fuel0 d r).isSome = true :=
   advance_never_runs_out_of_fuel fuel0 d r q hq hpc hcfg hdyn (by simp only [fuel0]; omega)
 
-example : ((sstep dinit (.load [0, 1] { pA with retries := 8 })).bind fun x =>
+example : ((sstep dinit (.load [0, 1] { pA with retries := 8 } [])).bind fun x =>
     (sstep { x.1 with down := [0, 1] } (.newReq true)).map fun y => (y.2, (y.1.s.reqs.map (·.retries)))) = some ("err", [8]) := by
   decide
 
@@ -523,13 +550,13 @@ theorem sched_dyn_never_runs_out_of_fuel (d : DState) (r : Nat) (q : Req) (hq : 
     (advanceDyn fuel0 d r).isSome = true :=
   advanceDyn_never_runs_out_of_fuel fuel0 d r q hq hpc hdyn (by simp only [fuel0]; omega)
 
-example : ((sstep dinit (.load [0, 1] { pA with retries := 8, dynamic := true })).bind fun x =>
+example : ((sstep dinit (.load [0, 1] { pA with retries := 8, dynamic := true } [])).bind fun x =>
     (sstep { x.1 with down := [0, 1] } (.newReq true)).map fun y => (y.2, (y.1.s.reqs.map (·.retries)), y.1.s.cfgs.length)) =
     some ("err", [8], 10) := by decide
 
 /-- …including the final quiescent state -/
 theorem quiesce_state_reachable {d : DState} (h : Reachable d.s) : Reachable (quiesce d) := quiesce_reachable h
 
-example : ((sstep dinit (.load [0, 1] pA)).map fun x => (quiesce x.1).nextHost) = some 2 := by decide
+example : ((sstep dinit (.load [0, 1] pA [])).map fun x => (quiesce x.1).nextHost) = some 2 := by decide
 
 end CaddyModel.C09
